@@ -105,7 +105,7 @@ fn request(data: &web::Data<ApplicationData>, req: Req) -> String {
     Req::Deploy => json_of(now(post_definitions_deploy(data.clone()))),
     Req::Eval(model, invocable, input) => {
       let p: EvaluateParams = serde_json::from_value(serde_json::json!({ "model": model, "invocable": invocable })).unwrap();
-      let mut resp = now(post_evaluate(web::Path::from(p), web::Bytes::from_static(input.as_bytes()), data.clone()));
+      let mut resp = now(post_evaluate(web::Path::from(p), Ok(web::Bytes::from_static(input.as_bytes())), data.clone()));
       match resp.take_body() {
         actix_web::dev::ResponseBody::Body(actix_web::dev::Body::Bytes(b)) | actix_web::dev::ResponseBody::Other(actix_web::dev::Body::Bytes(b)) => String::from_utf8_lossy(&b).into_owned(),
         _ => "<body of another kind>".to_string(),
